@@ -7,6 +7,10 @@ CLAIMED = {
  "C03": ("exploration", "S", "deterministic simulation: every pre-barrier system held in turn; oracle exit(before) < enter(after); redundant-barrier metamorphic comparison", "5.C03"),
  "C04": ("exploration", "S", "deterministic simulation: run counters per generated call sequence under seeded schedules and pool sizes; shape-sum of the executed plan", "5.C04"),
  "C05": ("exploration", "S", "deterministic simulation: simulated parallel dispatch vs dispatch_seq on the same dispatcher object (world and system states restored), non-commutative updates", "5.C05"),
+ "C06": ("fault_enumeration", "W", "fault enumeration: for every provided/derived system-data type (270 generated tuple/nesting types + derived structs) every member's resource is made absent in turn (crash point inside fetch with earlier guards held), cell states probed while the value lives and after the unwind; seeded multi-failure subsets; independent Describe oracle", "5.C06"),
+ "C08": ("exploration", "W", "deterministic simulation: 1-4 client tasks under the seeded scheduler issue fetch/try/by-id/system-data/meta-iterator/clone/drop/unwind operations on one shared World; reference borrow-state model checked after every operation, canary writes with a scheduler point inside", "5.C08"),
+ "C09": ("exploration", "W", "seeded operation histories with injected callback panics (Default, or_insert_with closure, Drop) and mismatching type arguments against a reference typed map; drop counters", "5.C09"),
+ "C17": ("exploration", "W", "deterministic simulation: meta-table histories (registrations with repeats, get/get_mut, iter/iter_mut advanced step by step with guards kept alive, address-changing cast) by 1-4 tasks against a reference registration list + borrow model", "5.C17"),
  "C07": ("exploration", "S", "deterministic simulation: batch window vs conflicting outer windows under hold/max-overlap schedules; inner dispatches re-checked with the C01-C04 oracles", "5.C07"),
  "C11": ("exploration", "S", "deterministic simulation: rendezvous of all group heads of a stage on a pool with exactly enough workers; exact deadlock detection, no timeouts", "5.C11"),
  "C12": ("exploration", "S", "deterministic simulation: task identity, start time and order of thread-local systems recorded in the event history under seeded schedules", "5.C12"),
@@ -47,6 +51,7 @@ def main():
      "hooks":{"guard":"cargo feature verif-hooks","enable":"the harness builds /repo's sources through a shadow manifest (harness/tmpl/shadow.toml) with feature verif-hooks on; rayon is replaced by sim/simrayon at manifest level (no source edit)","baseline_off_cmd":"cd /repo && cargo test --workspace --no-fail-fast --offline","source_commits":hooks_commits,"add_only":True},
      "engines":[
        {"name":"S","path":"/verif/sim","serves_properties":[p for p in props if p in CLAIMED and CLAIMED[p][1].startswith("S")],"kind_free_text":"deterministic simulation: shred's real code on a simulated thread pool (simrayon) under the detsim scheduler (OS threads + baton, seeded strategies, recorded choice trace, shrinking, exact replay)"},
+       {"name":"W","path":"/verif/harness/src","serves_properties":[p for p in props if p in CLAIMED and CLAIMED[p][1].startswith("W")],"kind_free_text":"world / meta-table client simulation (no dispatcher): generated operation histories by 1-4 tasks under detsim against reference models; C06 and C09 are single-task (no schedule dimension) with fault enumeration / injected callback panics"},
      ],
      "checks":checks,
      "not_applicable":na,
